@@ -34,6 +34,44 @@ def row_summary(dec: Decoders, row: Row) -> Tuple[str, List[str]]:
     return canon_cases(dec.row_cases(row, "read_value"))
 
 
+def sensor_read_rule(ctx: Ctx, rep: Report, rule: str):
+    """Sensor.read = seek(self.offset) + read_value, on every path (shared with C13: raw and derived values of one
+    result are decoded from the same positions of the same buffer)."""
+    prog = ctx.prog
+    sensor = prog.cls("Sensor")
+    # Sensor.read = seek(self.offset) + read_value
+    rd = sensor.methods.get("read")
+    from ..astutil import returned_values as _rv
+    ok, why_rd = rd is not None, "Sensor.read not found"
+    if ok:
+        # on every path: the value is self.read_value(data), and the last thing done to the buffer before that call is
+        # data.seek(self.offset) - nothing is consumed from it in between, whatever the path tested on the way
+        from ..paths import enumerate_paths, no_raise
+        dp = rd.params[1]
+        npaths = 0
+        for p in enumerate_paths(prog, rd, no_raise):
+            if p.end != "return":
+                continue
+            npaths += 1
+            rv = p.end_node.value
+            if isinstance(rv, ast.Name):
+                from ..astutil import single_assignments
+                rv = single_assignments(rd.node).get(rv.id, rv)
+            if not (isinstance(rv, ast.Call) and call_chain(rv) == ("self", "read_value") and len(rv.args) == 1 and norm(rv.args[0]) == dp):
+                ok, why_rd = False, "a path returns %s, not self.read_value(%s) [path %s]" % (norm(rv) if rv is not None else "nothing", dp, p.describe(6))
+                break
+            k = next((i for i, ev in enumerate(p.events) if ev.kind == "call" and ev.node is rv), len(p.events))
+            touched = [ev.node for ev in p.events[:k] if ev.kind == "call" and (call_chain(ev.node) or ("",))[0] == dp and len(call_chain(ev.node) or ()) == 2]
+            last = touched[-1] if touched else None
+            if last is None or call_chain(last) != (dp, "seek") or len(last.args) != 1 or chain(last.args[0]) != ("self", "offset"):
+                ok, why_rd = False, "before read_value() the buffer is left by %s, not positioned by %s.seek(self.offset) [path %s]" % (norm(last) if last is not None else "nothing", dp, p.describe(6))
+                break
+        if ok and npaths == 0:
+            ok, why_rd = False, "no returning path"
+    rep.check(ok, rule, "sensor-read", rd.loc() if rd else sensor.module.relpath, "Sensor.read seeks to self.offset and decodes with read_value",
+              bad="Sensor.read is no longer 'seek(self.offset); return self.read_value(data)': %s" % (why_rd if not ok else ""))
+
+
 def check(ctx: Ctx, rep: Report):
     rep.rule("C12.R1", "decoder summary of every sensor type equals the documented interpretation (bytes, big-endian, signedness, sentinels, scale)", 30)
     rep.rule("C12.R2", "every table row reads only bytes at its own register(s) on the bulk path", 480)
@@ -103,14 +141,7 @@ def check(ctx: Ctx, rep: Report):
         rep.check(not bad, "C12.R2", "own:%s.%s:%s" % (row.owner.name, row.table, row.id_), row.where(),
                   "%s reads %s" % (row.id_, ["%s+[%d,%d)" % r for r in rng]),
                   bad="%s.%s row '%s' (%s): %s" % (row.owner.name, row.table, row.id_, row.cls.name, "; ".join(bad)))
-    # Sensor.read = seek(self.offset) + read_value
-    rd = sensor.methods.get("read")
-    from ..astutil import returned_values as _rv
-    ok = rd is not None and any(isinstance(n, ast.Call) and call_chain(n) == (rd.params[1], "seek") and len(n.args) == 1 and chain(n.args[0]) == ("self", "offset")
-                                for n in ast.walk(rd.node)) \
-        and any(isinstance(v, ast.Call) and call_chain(v) == ("self", "read_value") and len(v.args) == 1 and norm(v.args[0]) == rd.params[1] for v in _rv(rd.node))
-    rep.check(ok, "C12.R2", "sensor-read", rd.loc() if rd else sensor.module.relpath, "Sensor.read seeks to self.offset and decodes with read_value",
-              bad="Sensor.read is no longer 'seek(self.offset); return self.read_value(data)'")
+    sensor_read_rule(ctx, rep, "C12.R2")
     # ---- R3
     fams = ctx.memo("families", lambda: families(prog, ctx.res))
     for fam in fams.values():
@@ -131,6 +162,26 @@ def check(ctx: Ctx, rep: Report):
     ok = rdm is not None and any(_is(v, ("self", "_bytes", "read"), [lambda a: norm(a) == rdm.params[1]]) for v in returned_values(rdm.node))
     rep.check(ok, "C12.R3", "response-read", rdm.loc() if rdm else pr.module.relpath, "ProtocolResponse.read reads from the trimmed payload buffer",
               bad="ProtocolResponse.read no longer returns self._bytes.read(size)")
+    # the read position belongs to seek() and read(): no other code moves it (an implicitly invoked __repr__ / __str__ /
+    # __len__ that reads the buffer leaves the cursor at its end - the next value read without a seek is made of nothing)
+    movers = ("seek", "read", "read1", "readinto", "readline", "readlines", "write", "writelines", "truncate", "__next__", "__iter__")
+    nacc = 0
+    for f in ctx.res.all_funcs():
+        for n in ctx.res._own_nodes(f):
+            if isinstance(n, ast.Call) and isinstance(n.func, ast.Attribute) and n.func.attr in movers:
+                cc = call_chain(n) or ()
+                if len(cc) >= 2 and cc[-2] == "_bytes":
+                    nacc += 1
+                    owner_ok = f.cls is pr and f.name in ("seek", "read") and cc[0] == "self"
+                    if not owner_ok and f.cls is pr and cc[0] == "self":
+                        from .proto import only_reached_from
+                        owner_ok = f.name not in ("__repr__", "__str__", "__len__", "__bool__", "__iter__", "__eq__", "__hash__", "__format__", "__bytes__", "__init__") \
+                            and bool(ctx.res.callers_of(f)) and only_reached_from(ctx, f, [sk, rdm])
+                    rep.check(owner_ok, "C12.R3", "cursor:%s:%s" % (f.short, norm(n.func)), f.loc(n),
+                              "%s moves the payload cursor as part of seek/read" % f.short,
+                              bad="%s moves the read position of the response payload (%s): a value read afterwards without a seek of its own (modbus-N reads, sequential read_* helpers) is decoded from the wrong bytes" % (f.short, norm(n)))
+    if nacc < 2:
+        raise AnalysisError("expected the payload cursor to be moved by ProtocolResponse.seek and .read, found %d accesses" % nacc)
     # ---- R4 docstring byte counts
     for ci in prog.all_subclasses(sensor, include_self=False):
         doc = ast.get_docstring(ci.node) or ""
